@@ -61,7 +61,7 @@ def main(tier):
                                    "observed": [[s["res"], s["val"], s["st"]] for s in e["steps"]], "failing_step": detail},
                           f"kind={e['kind']} cfg={common.canon(e['cfg'])}")
         steps = sum(len(e["steps"]) for e in events)
-        distinct = len({common.canon([e["kind"], e["cfg"], [s["a"] for s in e["steps"]]]) for e in events})
+        distinct = len({common.canon([e["kind"], e["cfg"], e.get("shared", False), [s["a"] for s in e["steps"]]]) for e in events})
         rep.add_events(len(events), distinct, [events[5], events[n_sp + 5]])
         rep.coverage.update({"paths_spec_property": n_sp, "paths_classproperty": len(events) - n_sp, "accesses": steps,
                              "judge_antecedents": res["ante"], "exhaustive": True,
